@@ -1,5 +1,6 @@
 (* C04  Order lifecycle: legal transitions, fill accounting, nothing left dangling. *)
 From RQ Require Import Model.Num Model.Position Model.Matcher Model.Order Proofs.NumFacts Proofs.OrderFacts.
+From RQ Require Import Model.Broker Proofs.BrokerFacts Gen.BrokerProg.
 Open Scope Q_scope.
 
 (* one broker step on an order: well-formedness is kept, the status moves along a legal edge, the emitted events
@@ -25,7 +26,7 @@ Proof. exact fill_accounting. Qed.
 Theorem C04_final_absorbing : forall o i, OWF o -> is_final (os_status o) = true -> ostep o i = (o, []).
 Proof. exact final_absorbing. Qed.
 Theorem C04_nothing_open_after_close : forall o, OWF o -> os_place (fst (ostep o IAfterTrading)) <> InOpen.
-Proof. exact nothing_open_after_close. Qed.
+Proof. exact OrderFacts.nothing_open_after_close. Qed.
 Theorem C04_returned_final_or_listed : forall o, OWF o -> os_status o <> PendingNew -> is_final (os_status o) = true \/ os_place o <> Nowhere.
 Proof. exact handed_back_is_final_or_listed. Qed.
 
@@ -36,9 +37,20 @@ Example C04_example :
   os_avg (fst r) == (107 # 10) /\ os_tcost (fst r) == 11.
 Proof. repeat split; vm_compute; reflexivity. Qed.
 
+(* Tie A: SimulationBroker's methods, regenerated from the source on every run as programs over the primitives of Model/Broker.v
+   (Gen/BrokerProg.v): the program of `_match` interprets to the model's matching round, and on_bar / before_trading / after_trading /
+   cancel_order / submit_order are the programs the model was written for (an order leaves BOTH books on cancel, final orders are collected
+   from BOTH books, the matchers are updated BEFORE the bar's orders are matched, everything still open is rejected at the close ...) *)
+Theorem C04_code_broker_is_model :
+  (forall fin ph s, interp fin ph gen_match s = bmatch fin s ph) /\
+  prog_eqb gen_on_bar expected_on_bar && prog_eqb gen_before_trading expected_before_trading && prog_eqb gen_after_trading expected_after_trading &&
+  prog_eqb gen_cancel expected_cancel && prog_eqb gen_submit expected_submit && listeners_as_expected = true.
+Proof. split; [exact gen_match_is_model|exact gen_programs_as_modelled]. Qed.
+
 Print Assumptions C04_step.
 Print Assumptions C04_protocol.
 Print Assumptions C04_fill_accounting.
 Print Assumptions C04_final_absorbing.
 Print Assumptions C04_nothing_open_after_close.
 Print Assumptions C04_returned_final_or_listed.
+Print Assumptions C04_code_broker_is_model.
